@@ -409,26 +409,26 @@ func (parser *Parser) ParseExpression(depth int) (res Sexp, err error) {
 		exp, err := parser.ParseInfix(depth + 1)
 		return exp, err
 	case TokenQuote:
-		expr, err := parser.ParseExpression(depth + 1)
+		expr, err := parser.parsePrefixOperand(depth + 1)
 		if err != nil {
 			return SexpNull, err
 		}
 		return MakeList([]Sexp{env.MakeSymbol("quote"), expr}), nil
 	case TokenCaret:
 		// '^' is now our syntax-quote symbol, not TokenBacktick, to allow go-style `string literals`.
-		expr, err := parser.ParseExpression(depth + 1)
+		expr, err := parser.parsePrefixOperand(depth + 1)
 		if err != nil {
 			return SexpNull, err
 		}
 		return MakeList([]Sexp{env.MakeSymbol("syntaxQuote"), expr}), nil
 	case TokenTilde:
-		expr, err := parser.ParseExpression(depth + 1)
+		expr, err := parser.parsePrefixOperand(depth + 1)
 		if err != nil {
 			return SexpNull, err
 		}
 		return MakeList([]Sexp{env.MakeSymbol("unquote"), expr}), nil
 	case TokenTildeAt:
-		expr, err := parser.ParseExpression(depth + 1)
+		expr, err := parser.parsePrefixOperand(depth + 1)
 		if err != nil {
 			return SexpNull, err
 		}
@@ -838,4 +838,22 @@ func (parser *Parser) ParserPeekNextToken(extra int) (tok Token, err error) {
 		}
 	}
 	return
+}
+
+// parsePrefixOperand reads the form that a reader prefix (' ^ ~ ~@)
+// applies to. Comments are expressions to the parser (the loader drops
+// them later), so a comment between the prefix and its form must be
+// skipped here: otherwise the prefix would take the comment as its
+// operand and the real operand would become a separate element.
+func (parser *Parser) parsePrefixOperand(depth int) (Sexp, error) {
+	for {
+		expr, err := parser.ParseExpression(depth)
+		if err != nil {
+			return expr, err
+		}
+		if _, isComment := expr.(*SexpComment); isComment {
+			continue
+		}
+		return expr, nil
+	}
 }
